@@ -54,6 +54,99 @@ pub fn make_plan(kind: &str, universe: u64, rng: &mut Rng) -> Vec<(u64, u64)> {
         .collect()
 }
 
+/// Scripted construction (needs the `sequential` plan: key k hashes to k, home bucket k & mask) of a
+/// two-group table, tombstone-saturated with len+1 <= capacity/2, in which the in-place rehash moves a
+/// live element into the EMPTY bucket that the next vacant-entry insertion found before reserving:
+/// A, Z at home s (Z lands on s+1), A removed (s EMPTY again), the rest of Z's group filled (b), Y with
+/// home s+1 displaced by a whole group, the table filled up (c), the b's removed (tombstones). The
+/// rehash brings Y home, which displaces Z, which goes to s.
+pub fn stale_slot_script(rng: &mut Rng) -> std::collections::VecDeque<String> {
+    let w = hashbrown::verif::GROUP_WIDTH;
+    let n = 2 * w;
+    let mask = n - 1;
+    let cap = hashbrown::verif::bucket_mask_to_capacity(mask);
+    let r = rng.below(w as u64) as usize;
+    let key = |p: usize, j: usize| ((p + r) & mask) + n * j;
+    let mut out = std::collections::VecDeque::new();
+    out.push_back(format!("a with_capacity {}", cap));
+    out.push_back(format!("INS {}", key(w - 1, 0)));
+    out.push_back(format!("INS {}", key(w - 1, 1)));
+    out.push_back(format!("a remove {}", key(w - 1, 0)));
+    for i in w + 1..n {
+        out.push_back(format!("INS {}", key(i, 0)));
+    }
+    out.push_back(format!("INS {}", key(w, 0)));
+    let kc = cap - w - 1;
+    for i in 1..=kc {
+        out.push_back(format!("INS {}", key(i, 0)));
+    }
+    for i in w + 1..n {
+        out.push_back(format!("a remove {}", key(i, 0)));
+    }
+    let extra = (cap / 2 + 2).saturating_sub(w);
+    for i in 0..extra {
+        out.push_back(format!("a remove {}", key(kc - i, 0)));
+    }
+    out.push_back(format!("INS {}", key(w - 1, 2)));
+    out
+}
+
+/// First EMPTY/DELETED bucket on the probe sequence of `hash` (tables of at least one group).
+pub fn first_special(ctrl: &[u8], mask: usize, hash: u64) -> Option<(usize, u8)> {
+    let w = hashbrown::verif::GROUP_WIDTH;
+    for pos in hashbrown::verif::probe_positions(hash, mask, (mask + 1) / w + 2) {
+        for j in 0..w {
+            let i = (pos + j) & mask;
+            if ctrl[i] & 0x80 != 0 {
+                return Some((i, ctrl[i]));
+            }
+        }
+    }
+    None
+}
+
+/// Generator-side sketch of `rehash_in_place` on a control-byte dump (`keys` = stored keys in bucket
+/// order, hashed by the plan). Only used to steer key choice; `None` for tables below two groups.
+pub fn sim_rehash_in_place(ctrl: &[u8], mask: usize, keys: &[u64]) -> Option<Vec<u8>> {
+    let w = hashbrown::verif::GROUP_WIDTH;
+    let n = mask + 1;
+    if n < 2 * w {
+        return None;
+    }
+    let mut c: Vec<u8> = ctrl[..n].to_vec();
+    let mut slot: Vec<Option<u64>> = vec![None; n];
+    let mut it = keys.iter();
+    for i in 0..n {
+        if c[i] & 0x80 == 0 {
+            slot[i] = Some(*it.next()?);
+            c[i] = 0x80;
+        } else {
+            c[i] = 0xFF;
+        }
+    }
+    for i in 0..n {
+        if c[i] != 0x80 {
+            continue;
+        }
+        for _ in 0..n + 1 {
+            let h = crate::tape::plan_hash(slot[i]?);
+            let (ni, prev) = first_special(&c, mask, h)?;
+            if hashbrown::verif::is_in_same_group(i, ni, h, mask) {
+                c[i] = hashbrown::verif::tag_full(h);
+                break;
+            }
+            c[ni] = hashbrown::verif::tag_full(h);
+            if prev == 0xFF {
+                c[i] = 0xFF;
+                slot[ni] = slot[i].take();
+                break;
+            }
+            slot.swap(i, ni);
+        }
+    }
+    Some(c)
+}
+
 pub struct Gen {
     pub rng: Rng,
     pub universe: u64,
@@ -65,13 +158,15 @@ pub struct Gen {
     /// profile name (a generator may serve several profiles)
     pub variant: &'static str,
     pub flipped: bool,
+    /// scripted prelude (ops issued before the generator takes over); `INS k` = insertion of key k
+    pub script: std::collections::VecDeque<String>,
 }
 
 impl Gen {
     pub fn new(seed: u64, universe: u64, profile: &'static str) -> Self {
         let mut rng = Rng::new(seed);
         let target_buckets = *rng.pick(&[16usize, 16, 32, 32, 64, 128]);
-        Gen { rng, universe, next_id: 1, profile, phase: 0, fresh_key: 0, target_buckets, variant: profile, flipped: false }
+        Gen { rng, universe, next_id: 1, profile, phase: 0, fresh_key: 0, target_buckets, variant: profile, flipped: false, script: Default::default() }
     }
     pub fn id(&mut self) -> u64 {
         let i = self.next_id;
@@ -111,6 +206,12 @@ impl Gen {
 
     /// Next op line (without the leading `op`), e.g. `a insert 3 7 8 101`.
     pub fn next(&mut self, r: &dyn Runner) -> String {
+        if let Some(op) = self.script.pop_front() {
+            return match op.strip_prefix("INS ") {
+                Some(k) => format!("a {}", self.insert(k.parse().unwrap())),
+                None => op,
+            };
+        }
         match self.profile {
             "grow" => {
                 let x = self.rng.below(10);
@@ -314,7 +415,10 @@ impl Gen {
                     return self.saturate(r);
                 }
                 // mostly keys whose removal leaves a tombstone, so that growth_left stays 0
-                let k = if self.rng.chance(9, 10) { crate::gen_ext::ent_tomb_key(self, r) } else { None };
+                // (entry-sat: more removals that leave EMPTY, so that displaced elements have a bucket to move back to)
+                let tomb = if self.variant == "entry-sat" { 2 } else { 9 };
+                let den = if self.variant == "entry-sat" { 3 } else { 10 };
+                let k = if self.rng.chance(tomb, den) { crate::gen_ext::ent_tomb_key(self, r) } else { None };
                 match k.or_else(|| self.present_key(r, "a")) {
                     Some(k) => format!("a remove {}", k),
                     None => {
@@ -342,29 +446,34 @@ impl Gen {
                 // an absent key whose first free bucket is EMPTY (not a tombstone): the vacant-entry
                 // insertion probes, must reserve (in-place rehash when len+1 <= capacity/2) and probe again
                 let present = r.keys("a");
-                let w = hashbrown::verif::GROUP_WIDTH;
-                let n = d.bucket_mask + 1;
+                // what an in-place rehash would make of the table (steering only: the best candidates are
+                // keys whose pre-reserve bucket is taken, or no longer the first free one, afterwards)
+                let after = sim_rehash_in_place(&d.ctrl, d.bucket_mask, &present);
                 let mut pick = None;
+                let mut rank = 0;
                 for _ in 0..400 {
                     let k = self.rng.below(self.universe);
                     if present.contains(&k) {
                         continue;
                     }
                     let h = crate::tape::plan_hash(k);
-                    let mut first = None;
-                    'walk: for pos in hashbrown::verif::probe_positions(h, d.bucket_mask, n / w + 2) {
-                        for j in 0..w {
-                            let c = d.ctrl[(pos + j) & d.bucket_mask];
-                            if c & 0x80 != 0 {
-                                first = Some(c);
-                                break 'walk;
-                            }
+                    if let Some((s, 0xFF)) = first_special(&d.ctrl, d.bucket_mask, h) {
+                        let rk = match &after {
+                            Some(a) if a[s] & 0x80 == 0 => 3,
+                            Some(a) if first_special(a, d.bucket_mask, h).map(|x| x.0) != Some(s) => 2,
+                            _ => 1,
+                        };
+                        if rk > rank {
+                            rank = rk;
+                            pick = Some(k);
+                        }
+                        if rank == 3 || (rank == 2 && self.rng.chance(1, 40)) {
+                            break;
                         }
                     }
-                    if first == Some(0xFF) {
-                        pick = Some(k);
-                        break;
-                    }
+                }
+                if std::env::var("HBV_DEBUG").is_ok() {
+                    eprintln!("entry-sat pick rank={} sim={} items={} mask={}", rank, after.is_some(), d.items, d.bucket_mask);
                 }
                 let k = pick.unwrap_or_else(|| {
                     self.fresh_key += 1;
